@@ -87,6 +87,7 @@ type Rec struct {
 	Incon   []string            `json:"i,omitempty"`
 	journal *os.File
 	cur     string
+	beat    time.Time
 }
 
 // Eval counts n executed evaluations.
@@ -158,6 +159,7 @@ func (r *Rec) Violation(key, what string, witness interface{}) {
 func (r *Rec) Begin(desc string) {
 	r.mu.Lock()
 	r.cur = desc
+	r.beat = time.Now()
 	r.mu.Unlock()
 	if r.journal != nil {
 		r.journal.WriteString("S " + strconv.Quote(desc) + "\n")
@@ -165,7 +167,10 @@ func (r *Rec) Begin(desc string) {
 }
 
 // Note remembers the current sub-input in memory only (for recoverable panics).
-func (r *Rec) Note(desc string) { r.mu.Lock(); r.cur = desc; r.mu.Unlock() }
+func (r *Rec) Note(desc string) { r.mu.Lock(); r.cur = desc; r.beat = time.Now(); r.mu.Unlock() }
+
+// lastBeat returns when the case last announced a sub-input.
+func (r *Rec) lastBeat() time.Time { r.mu.Lock(); defer r.mu.Unlock(); return r.beat }
 
 // Cur returns the current sub-input.
 func (r *Rec) Cur() string { r.mu.Lock(); defer r.mu.Unlock(); return r.cur }
@@ -246,7 +251,17 @@ func RunWorker(c *Check, phaseName, tier string, seed int64, k, n, from, only in
 			wmu.Lock()
 			idx, st, rec := curIdx, curStart, curRec
 			wmu.Unlock()
-			if idx < 0 || time.Since(st) < soft {
+			if idx < 0 {
+				continue
+			}
+			// the watchdog measures the time since the case last announced a
+			// sub-input (Begin/Note), not the duration of the whole batch
+			if rec != nil {
+				if b := rec.lastBeat(); b.After(st) {
+					st = b
+				}
+			}
+			if time.Since(st) < soft {
 				continue
 			}
 			s1 := AllStacks()
